@@ -1,5 +1,6 @@
 """C14 — the pressure grade line matches the pipeline and is computed without side effects."""
 import copy
+import envelope as E
 import math
 
 import pipegen as G
@@ -60,6 +61,19 @@ def gen(ctx):
         if isinstance(pl.pipesections[i], Pipe):
             pl.pipesections.insert(i, copy.copy(pl.pipesections[i]))
             pl.update_slurries()
+    if ctx.rng.random() < 0.25 and isinstance(pl.pipesections[-1], Pipe):
+        # a discharge (shore) line of a diameter of its own, which is also the slurry's diameter: no other section shares it
+        used = {x.diameter for x in pl.pipesections[:-1] if isinstance(x, Pipe)}
+        pr = getattr(pl.slurry, '_params', None)
+        cand = [d_ for d_ in (0.55, 0.75, 0.8, 0.45) if d_ not in used]
+        if pr and cand:
+            nu_, rhol_ = E.fluids()[pr['fluid']]
+            cand = [d_ for d_ in cand if pr['D50'] > max(E.dlim(d_, nu_, rhol_, pr['rhos']), 5e-5) * 1.001 and pr['D50'] * pr['r85'] <= 0.5 * d_]
+            if cand:
+                pl.pipesections[-1].diameter = ctx.rng.choice(cand)
+                pl.slurry.Dp = pl.pipesections[-1].diameter
+                pr['Dp'] = pl.slurry.Dp
+                pl.update_slurries()
     # the convention of the property: slurry diameter is one of the pipeline's diameters
     if pl.slurry.Dp not in pl.slurries:
         pl.slurry.Dp = pl.pipesections[-1].diameter
